@@ -22,7 +22,7 @@ func c02NonTrivial(tags map[string]int, ev map[string]int) bool {
 
 func TestC02(t *testing.T) {
 	r, e := start(t, "C02",
-		"programs with 1-6 functions (0-4 scalar or slice parameters, 0-3 results, with/without parentheses), identifiers drawn from a small pool so parameters, locals and later-defined globals share spellings across frames; globals written inside functions by =, op=, ++/--, multi-assignment and multi-value call assignment; calls as statements, operands, arguments, in multi-value definitions/assignments; swaps and 3-cycles; every global is printed at the end. Oracle: reference interpreter (real frames, slices by reference). Non-trivial = a called function plus a global write inside a function, a multi-value flow, a swap, or >= 2 calls; distinct by source text.",
+		"programs with 1-6 functions (0-4 scalar or slice parameters, 0-3 results, with/without parentheses), identifiers drawn from a small pool so parameters, locals and later-defined globals share spellings across frames; globals written inside functions by =, op=, ++/--, multi-assignment and multi-value call assignment; calls as statements, operands, arguments, in multi-value definitions/assignments; swaps and 3-cycles; every global is printed at the end. Oracle: reference interpreter (real frames, slices by reference). Non-trivial = a called function plus a global write inside a function, a multi-value flow, a swap, or >= 2 calls; distinct by source text. A third of the programs (by a hash of the text) additionally run as the text of an imported file (same output expected).",
 		[]string{"recursion is not generated (the language forbids it)", "return f() for multi-valued f and f(g()) with multi-valued g are not generated (never claimed by TypeShell)"})
 	defer r.Flush()
 	cfg := c02Cfg(e.Thorough())
